@@ -170,6 +170,12 @@ class Gen:
             # error() alone has the bottom type, which makes overloaded callers ambiguous; the conditional fixes the type
             return call('if', E('bool', True), call('error', E('str', r.choice(['e1', 'e2', 'boom']))), self.lit_noerr(ty))
         cands = [n for n, t in scope if t == ty]
+        if isinstance(ty, tuple) and ty[0] == 'fn':
+            # a function value: a visible function of exactly that type, or a lambda closing over the scope
+            if cands and r.random() < 0.5:
+                return V(r.choice(cands))
+            ps = [(self.name('a'), t, None) for t in ty[1]]
+            return E('lam', ps, [], self.expr(ty[2], scope + [(x, t) for x, t, _ in ps], max(0, depth - 1)))
         if depth <= 0 or r.random() < 0.18:
             if cands and r.random() < 0.65:
                 return V(r.choice(cands))
